@@ -1183,17 +1183,26 @@ impl Set {
     /// Compute the size of the join
     fn size(
         operator: &SetOperator,
-        _quantifier: &SetQuantifier,
+        quantifier: &SetQuantifier,
         left: &Relation,
         right: &Relation,
     ) -> Integer {
         let left_size_max = left.size().max().cloned().unwrap_or(<i64 as Bound>::max());
         let right_size_max = right.size().max().cloned().unwrap_or(<i64 as Bound>::max());
+        let left_size_min = left.size().min().cloned().unwrap_or(0);
+        let right_size_min = right.size().min().cloned().unwrap_or(0);
         // TODO Improve this
         match operator {
+            // A union has at least as many rows as its inputs are guaranteed to have (UNION ALL),
+            // or one row when an input is known to be non-empty (UNION removes duplicates)
             SetOperator::Union => Integer::from_interval(
-                left_size_max.min(right_size_max),
-                left_size_max + right_size_max,
+                match quantifier {
+                    SetQuantifier::All | SetQuantifier::AllByName => {
+                        left_size_min.saturating_add(right_size_min)
+                    }
+                    _ => left_size_min.max(right_size_min).min(1),
+                },
+                left_size_max.saturating_add(right_size_max),
             ),
             SetOperator::Except => Integer::from_interval(0, left_size_max),
             SetOperator::Intersect => Integer::from_interval(0, left_size_max.min(right_size_max)),
